@@ -340,7 +340,7 @@ func genCase(t *rapid.T) Case {
 }
 
 func init() {
-	vf.Register(vf.Sub[Case]{Name: "roundtrip", Quick: 20000, Thorough: 250000, Gen: genCase, Check: check, Floor: 0.25,
+	vf.Register(vf.Sub[Case]{Name: "roundtrip", Quick: 20000, Thorough: 100000, Gen: genCase, Check: check, Floor: 0.25,
 		Rule: "problems from ParseSliceNb / ParseCNF / ParseCardConstrs / ParsePBConstrs / ParseOPB (n<=8, odd clause shapes, trivially true/false constraints, parse-time Sat and Unsat), with or without cost function; printers: Problem.CNF() (propositional problems), Problem.PBString(), Solver.PBString() after 0..3 Solve/AppendClause/Minimize/Optimal steps (after an optimisation the solver also holds bounds on the cost: the models read back must then be models of the problem, with their cost), explain.Problem.CNF(); in a third of the cases the problem is printed after a solver made from it has solved / optimised it; each text must satisfy the harness's strict recogniser of its format, parse back without error, and the re-parsed problem (evaluated without solving, unmentioned variables free) must have exactly the original models over the original variables; costs compared on up to 3 drawn assignments by pinning them with unit constraints in the re-parsed text; non-trivial = rendering with units and non-unit constraints, or with a cost function"})
 }
 
